@@ -2,7 +2,7 @@
    parametric in the tables T (today's tables: Gen/C19Tables.v; `wf T` is re-decided in C19/Inst.v).
    Only statements closed by `exact`, each followed by Print Assumptions.
    `chars out` is the LaTeX string the implementation returns; trees are arbitrary (no size bound). *)
-From S2T Require Import Lib.PyStr C19.Model C19.Proofs C19.TextSpec C19.Texts C19.Depth.
+From S2T Require Import Lib.PyStr C19.Model C19.Proofs C19.TextSpec C19.Texts C19.Depth C19.Formulas.
 From Coq Require Import List Bool.
 Import ListNotations.
 
@@ -192,3 +192,29 @@ Theorem C19_depth_equals_height_default : forall T t,
   /\ (forallb (all_default T) (ochildren t) = true -> conv_depth T t = hmax (ochildren t)).
 Proof. intros T t. exact (conj (rec_depth_default T t) (conv_depth_default T t)). Qed.
 Print Assumptions C19_depth_equals_height_default.
+
+(* ---- the formula collectors docx_extractor._extract_formulas_from_context / pptx_extractor._extract_formulas_from_element
+   (C19/Formulas.v; an element's identity id(e) is its path from the scope root).  For EVERY scope tree:
+   every m:oMath element of the scope is located (nothing lost), only m:oMath elements of the scope are located
+   (nothing invented), none twice, and the display flag is set exactly for the first m:oMath child of an m:oMathPara. *)
+Theorem C19_formulas_each_once : forall T scope,
+  (forall p om, In (p, om) (iter_from [] scope) -> otag om = OM T -> In p (map id_of (located T scope)))
+  /\ (forall p om b, In (p, om, b) (located T scope) -> In (p, om) (iter_from [] scope) /\ otag om = OM T)
+  /\ NoDup (map id_of (located T scope))
+  /\ (forall p om, In (p, om, true) (located T scope) <->
+       exists q para j, In (q, para) (iter_from [] scope) /\ otag para = PARA T
+                        /\ find_idx (OM T) O (ochildren para) = Some (j, om) /\ p = (q ++ [j])%list).
+Proof.
+  intros T scope.
+  exact (conj (located_complete T scope) (conj (located_sound T scope) (conj (located_nodup T scope) (located_display T scope)))).
+Qed.
+Print Assumptions C19_formulas_each_once.
+
+(* the returned list: the conversions of the located formulas, display formulas first, each group in document
+   order, formulas whose conversion is blank dropped *)
+Theorem C19_formulas_result : forall T scope,
+  collect T scope =
+  filter (fun lb => nonblank T (fst lb))
+         (map (fun pe => (latex T (snd pe), true)) (firsts T scope) ++ map (fun pe => (latex T (snd pe), false)) (inlines T scope)).
+Proof. intros T scope. exact (collect_unfold T scope). Qed.
+Print Assumptions C19_formulas_result.
